@@ -115,6 +115,20 @@ def check(case):
                     buf[:] = vec           # back to the first content, still the same array object
             case.close(H(vec.copy()), want, rtol=1e-8, what='value at a fresh copy of the first vector afterwards')
 
+    # a vector of whole numbers typed as integers (int array, list / tuple of Python ints) is the same vector
+    # (not with covariates: whole-number coefficients can leave the support)
+    if cov is None:
+        with case.clause('integer_vector'):
+            v_i = np.maximum(1, np.round(np.abs(vec))).astype(int)
+            v_f = v_i.astype(float)
+            want_i = float(np.real(hbuild.ref_hier(s, v_f)))
+            got_f = H(v_f.copy())
+            case.close(got_f, want_i, rtol=1e-8, what='hierarchical log-likelihood at a whole-number vector (floats)')
+            for label, arg in (('an int array', v_i), ('a list of Python ints', v_i.tolist()),
+                               ('a tuple of Python ints', tuple(v_i.tolist()))):
+                case.close(H(arg), got_f, rtol=1e-12, what='hierarchical log-likelihood for whole numbers given as %s '
+                                                           'vs as floats' % label)
+
     with case.clause('names'):
         case.equal(H.get_parameter_names(), names_want, 'parameter names')
         case.equal(H.get_id(), ids_want, 'ids')
